@@ -117,6 +117,7 @@ func (in osmInput) elements() ([]osm.Node, []osm.Way, []osm.Relation) {
 
 func runOSM(data json.RawMessage) vh.Verdict {
 	obs.OSMScheme = true
+	obs.SetFrame("")
 	var c osmCase
 	if err := json.Unmarshal(data, &c); err != nil {
 		return vh.Fail("harness-json", "bad case: %v", err)
